@@ -2426,6 +2426,10 @@ func (m *repoManager) deleteData(data DataService, passcode string) error {
 	}
 	if r.passcodeOK(passcode) {
 		data.SetDeleted(true)
+		// persist the mark before the key-values start to disappear, so that a restart finishes the job
+		if err := r.save(); err != nil {
+			return err
+		}
 		go r.deleteData(data)
 	} else {
 		return fmt.Errorf("incorrect passcode for repo %s", r.uuid)
@@ -2604,6 +2608,10 @@ func (r *repoT) deleteDataByName(name dvid.InstanceName) error {
 		return ErrInvalidDataName
 	}
 	data.SetDeleted(true)
+	// persist the mark before the key-values start to disappear, so that a restart finishes the job
+	if err := r.save(); err != nil {
+		return err
+	}
 
 	go r.deleteData(data)
 	return nil
@@ -2611,6 +2619,9 @@ func (r *repoT) deleteDataByName(name dvid.InstanceName) error {
 
 func (r *repoT) deleteDataByDataUUID(data DataService) error {
 	data.SetDeleted(true)
+	if err := r.save(); err != nil {
+		return err
+	}
 	go r.deleteData(data)
 	return nil
 }
